@@ -211,7 +211,7 @@ def run(tier, seed):
             stem, ext_ = os.path.splitext(lit)
             dict_names += [(f"zzz_stale_{lit}", ext_), (f"{stem}_zzz_stale{ext_}", ext_), (f"zzz_{stem}_stale{ext_}", ext_)]
         # minimised past failures run first
-        CORPUS = [[("extra-dict", None)], [("stale+siblings", None)],
+        CORPUS = [[("extra-dict", None)], [("stale+siblings", None)], [("extra-subdirs", None)],
                   [("extra", "wowm_language/src/docs")], [("delete", "wow_message_parser/tests/wireshark/parser.txt")],
                   [("delete", "wow_world_messages/src/helper/vanilla/update_mask/impls.rs"), ("delete", "wow_world_messages/src/helper/tbc/opcode_to_name.rs")],
                   [("delete", "intermediate_representation.json"), ("extra", "wow_world_base/src/inner")]]
@@ -239,6 +239,22 @@ def run(tier, seed):
                             open(q_, "w").write("// leftover of an interrupted run\n")
                             ops.append(("extra", os.path.relpath(q_, SCRATCH)))
                         kinds["stale+siblings"] += 1
+                    continue
+                if kind == "extra-subdirs":
+                    # stale files in directories that receive no write in this run: the module directory of a removed version / expansion next to the
+                    # live ones, and a directory one level below a live module directory — in every swept root, all in ONE run
+                    for d_ in SWEPT:
+                        live = sorted({os.path.dirname(x) for x in gen if x.startswith(d_ + "/") and x.endswith(".rs")})
+                        if not live:
+                            continue
+                        deep = live[rng.below(len(live))]
+                        for q_ in (os.path.join(d_, "zzz_removed_module", "mod.rs"), os.path.join(d_, "zzz_removed_module", "zzz_stale_type.rs"),
+                                   os.path.join(deep, "zzz_old", "zzz_stale_nested.rs")):
+                            p_ = os.path.join(SCRATCH, q_)
+                            os.makedirs(os.path.dirname(p_), exist_ok=True)
+                            open(p_, "w").write("// stale file that corresponds to no definition\n")
+                            ops.append(("extra", q_))
+                            kinds["extra-subdirs"] += 1
                     continue
                 if kind == "extra-dict":
                     # one stale file per (dictionary name, swept directory with files of that extension): all in ONE run
